@@ -6,7 +6,9 @@ cp /tmp/mut/${OUTP:-out2}-$id/$v/demo_test.go $d/ 2>/dev/null
 python3 - "$id" "$v" "$d" "$4" "$5" <<'PY'
 import json,sys
 id,v,d,caught,ver=sys.argv[1:6]
-try: meta=json.load(open(f'/tmp/mut/${OUTP:-out2}-{id}/{v}/meta.json'))
+import os
+outp=os.environ.get('OUTP','out2')
+try: meta=json.load(open(f'/tmp/mut/{outp}-{id}/{v}/meta.json'))
 except Exception: meta={"property":id}
 meta['round']=int(__import__('os').environ.get('ROUND','2'))
 meta['verified_by_me']={"commands":[ver,"tools/try_mutant.sh patch.diff "+id+" (git -C /repo apply; ./check; git -C /repo checkout -- .)"]}
